@@ -469,7 +469,7 @@ class Analysis:
             if r["op"] == "PtrMetadata":
                 p = op_place(r["a"])
                 kk = self._ref_source(key_of(p)) if p else None
-                if kk and self.tracked(kk):
+                if kk and (self.tracked(kk) or ("len(%s)" % kk) in st.iv):
                     s = "len(%s)" % kk
                     return st.iv.get(s, (0, ISIZE_MAX)), lin_sym(s), False
                 return (0, ISIZE_MAX), None, False
@@ -985,6 +985,19 @@ class Analysis:
             if sk and self.tracked(sk):
                 copy_fields = ([(k2[len(sk):], v) for k2, v in st.iv.items() if k2.startswith(sk + ".")],
                                [(k2[len(sk):], v) for k2, v in st.sym.items() if k2.startswith(sk + ".")])
+        slice_len = None
+        if re.search(r"::index(_mut)?$|::get_unchecked(_mut)?$", name) and len(args) == 2:
+            rp = op_place(args[1])
+            rk = key_of(rp) if rp is not None else None
+            if rk:
+                s_ln, e_ln = st.sym.get(rk + ".start"), st.sym.get(rk + ".end")
+                s_iv, e_iv = st.iv.get(rk + ".start"), st.iv.get(rk + ".end")
+                if s_ln is not None and e_ln is not None:
+                    d = lin_add(e_ln, s_ln, -1)
+                    if not d[1]:
+                        slice_len = (d[0], d[0])
+                if slice_len is None and s_iv and e_iv and s_iv[0] == s_iv[1] and e_iv[0] == e_iv[1]:
+                    slice_len = (e_iv[0] - s_iv[0], e_iv[0] - s_iv[0])
         minmax = None
         mm = re.search(r"(?:cmp::Ord::|core::cmp::)(min|max)$|::(saturating_sub)$", name)
         if mm and len(args) == 2:
@@ -1025,6 +1038,8 @@ class Analysis:
                         st.kill(x)
         if key:
             st.kill(key)
+        if key and slice_len is not None and slice_len[0] >= 0:
+            st.iv["len(%s)" % key] = slice_len     # `&s[a..b]` that returned has b - a elements
         if not key or not self.tracked(key):
             return
         dty = self.tys.get(key)
